@@ -467,6 +467,10 @@ def check(ctx: Ctx):
         check_semantic_dtype(ctx)
     except (Undecided, AnchorMissing) as e:
         ctx.undecided("R05.6", None, None, "R05.6:check_semantic_dtype", f"{type(e).__name__}: {e}")
+    # the dimensionality the default backend is chosen by is the arrays' ndim (R10.4)
+    from . import c03, c10
+
+    c03._guarded(ctx, "R10.4", c10.check_pair_constructor)
 
 
 _A = "panoptica/instance_approximator.py"
